@@ -13,7 +13,7 @@ The key/value stream is modelled flat (`Sqfs.EncMeta` relates flat positions and
 `refOf p` is the packed reference the kv meta writer reports at flat position `p`, `posOf ref` what a seek to that
 reference reaches.
 -/
-import Sqfs.Model.EncBytes
+import Sqfs.Model.EncMeta
 namespace Sqfs.Enc
 open Sqfs.Consts
 
@@ -226,23 +226,61 @@ def applyStores (n : Nat) (stores : List (Nat × Nat)) : List Nat :=
 
 /-! ### reading -/
 
-/-- a loaded `sqfs_xattr_reader_t` on flat streams: `kv` = key/value stream, `ids` = the descriptor stream,
-`numIds` = `xattr_ids` of the table header, `posOf` = where a seek to a packed reference lands (`none`: the seek
-fails) -/
+/-- `write_id_table` + `sqfs_xattr_writer_flush` (xattr_writer_flush.c:227-259, 305-346) on top of `flushKv`: the
+descriptors go through a meta writer (`run cmp`), `block_offset` is sampled after every append (`blockAfters`), the
+stores into `locations[]` are replayed into the array (`applyStores`; repaired guard `i < count`) -/
+def blockAfters (cmp : Sqfs.MetaWriter.Codec) : Sqfs.MetaWriter.St → List Bytes → List Nat
+  | _, [] => []
+  | st, c :: cs => (Sqfs.MetaWriter.append cmp st c).blockOffset :: blockAfters cmp (Sqfs.MetaWriter.append cmp st c) cs
+
+structure XFlush where
+  /-- flat key/value stream -/
+  kv : Bytes
+  descs : List XDesc
+  /-- the metadata blocks of the id table -/
+  idBlocks : List Sqfs.MetaWriter.Block
+  /-- `locations[]` relative to `id_start` (before `+ id_start`, :339) -/
+  locs : List Nat
+
+def xattrFlush (cmp : Sqfs.MetaWriter.Codec) (refOf : Nat → Nat) (w : XWriter) : XFlush :=
+  let (kv, descs) := flushKv refOf w
+  let chunks := descs.map encDesc
+  let after := blockAfters cmp {} chunks
+  let count := locCount descs.length
+  { kv := kv, descs := descs, idBlocks := (Sqfs.MetaWriter.run cmp chunks).out,
+    locs := applyStores count (locStores (some count) (fun k => after.getD (k - 1) 0) descs.length) }
+
+/-- a loaded `sqfs_xattr_reader_t`: `kv` = the key/value stream (flat; `posOf` = where a seek to a packed reference
+lands, `none`: the seek fails), `idDisk` = the metadata blocks of the id table as they are on disk from `id_start` on,
+`locs` = `id_block_starts[]` (relative to `id_start`), `unc` = the reader's `do_block`, `numIds` = `xattr_ids` of the
+table header -/
 structure XReader where
   kv : Bytes
-  ids : Bytes
+  idDisk : Bytes
+  locs : List Nat
+  unc : Unc
   numIds : Nat
   posOf : Nat → Option Nat
 
-/-- `sqfs_xattr_reader_get_desc` (xattr_reader.c:404-441) for `idx ≠ 0xFFFFFFFF` on a loaded reader -/
+/-- `sqfs_xattr_reader_get_desc` (xattr_reader.c:404-441) for `idx ≠ 0xFFFFFFFF` on a loaded reader: the descriptor is
+fetched through `id_block_starts[idx * 16 / 8192]` at offset `idx * 16 % 8192` -/
 def getDesc (r : XReader) (idx : Nat) : Except Status XDesc :=
   if idx ≥ r.numIds then .error errOutOfBounds                             -- :419
   else
-    match readFields [8, 4, 4] (r.ids.drop (idx * sizeofXattrId)) with     -- :422-432
-    | .ok ([x, c, s], _) => .ok ⟨x, c, s⟩
-    | .ok _ => .error errInternal
-    | .error e => .error e
+    match r.locs[idx * sizeofXattrId / metaBlockSize]? with                 -- :423 (in range: num_id_blocks = ceil)
+    | none => .error errOutOfBounds
+    | some start =>
+      match metaReadAt r.unc r.idDisk start (idx * sizeofXattrId % metaBlockSize) sizeofXattrId with   -- :425-430
+      | .error e => .error e
+      | .ok raw =>
+        match readFields [8, 4, 4] raw with                                -- :432-435
+        | .ok ([x, c, s], _) => .ok ⟨x, c, s⟩
+        | .ok _ => .error errInternal
+        | .error e => .error e
+
+/-- the reader `sqfs_xattr_reader_load` builds from what `xattrFlush` wrote -/
+def XFlush.reader (f : XFlush) (unc : Unc) (posOf : Nat → Option Nat) : XReader :=
+  { kv := f.kv, idDisk := encBlocks f.idBlocks, locs := f.locs, unc := unc, numIds := f.descs.length, posOf := posOf }
 
 /-- `sqfs_xattr_reader_read` (xattr_reader.c:303-388): one key/value pair with the key/value reader standing at the
 head of `cur`; result: the full key (prefix included), the value, and the stream behind the pair.  An out-of-line value
